@@ -3,6 +3,8 @@ CONSTANTS
   MaxEpoch = 2
   MaxLeaves = 5
   Export = FALSE
+  MaxU = 3
+  MaxI = 2
   PrevEpochChecked = TRUE
   ChildPrefixChecked = FALSE
   PrefixFreeChecked = TRUE
